@@ -39,6 +39,9 @@ type pdCase struct {
 	Rev   int
 	JSONP bool
 	NSess int
+	// Chunk > 0: the clients' data requests do not declare their length (chunked transfer coding, what a streaming
+	// client sends); the body arrives in pieces of this size
+	Chunk int
 	Steps []pdStep
 }
 
@@ -49,6 +52,9 @@ func genC11(rt *rapid.T) pdCase {
 	}
 	c.JSONP = rapid.IntRange(0, 4).Draw(rt, "jsonp") == 0
 	c.NSess = rapid.IntRange(1, 3).Draw(rt, "nsess")
+	if rapid.IntRange(0, 3).Draw(rt, "undeclaredLength") == 0 {
+		c.Chunk = rapid.SampledFrom([]int{1, 5, 4096}).Draw(rt, "chunk")
+	}
 	n := rapid.IntRange(2, 14).Draw(rt, "nsteps")
 	for i := 0; i < n; i++ {
 		l := fmt.Sprintf("s%d", i)
@@ -117,7 +123,7 @@ func runC11(c pdCase) (fail string, stats map[string]bool) {
 		}
 	}
 	for i := 0; i < c.NSess; i++ {
-		pc := &PollClient{W: w, O: ClientOpts{Rev: c.Rev, EIO: eio, JSONP: c.JSONP, J: "1", B64: c.JSONP}}
+		pc := &PollClient{W: w, O: ClientOpts{Rev: c.Rev, EIO: eio, JSONP: c.JSONP, J: "1", B64: c.JSONP, Chunk: c.Chunk}}
 		pc.StartHandshake()
 		Settle()
 		if err := pc.FinishHandshake(); err != nil {
@@ -297,6 +303,9 @@ func runC11(c pdCase) (fail string, stats map[string]bool) {
 				}
 				if st.N > 1 {
 					stats["multi-packet-ack"] = true
+				}
+				if c.Chunk > 0 {
+					stats["data-request-of-undeclared-length-acknowledged"] = true
 				}
 			}
 		case "pollInsideWrite":
@@ -864,7 +873,7 @@ func TestC11PollingDiscipline(t *testing.T) {
 			rt.Fatalf("%v: %s", c, clipStr(res.Leak, 1500))
 		}
 	})
-	col.RequireClasses(t, "overlapping-poll", "overlapping-data-request", "aborted-poll", "aborted-data-request", "stalled-body-released", "poll-released-by-close", "poll-answered-by-send", "multi-packet-ack", "undisturbed-session-ok", "request-after-close", "data-request-while-handler-busy", "client-close-packet-with-poll-pending", "wrong-heartbeat-with-poll-pending", "two-responders-for-one-data-request", "poll-response-on-slow-connection", "poll-arriving-while-a-response-is-being-written", "data-request-with-disallowed-content-type", "disallowed-content-type-with-poll-pending", "two-polls-past-the-overlap-test-together", "two-data-requests-past-the-overlap-test-together")
+	col.RequireClasses(t, "data-request-of-undeclared-length-acknowledged", "overlapping-poll", "overlapping-data-request", "aborted-poll", "aborted-data-request", "stalled-body-released", "poll-released-by-close", "poll-answered-by-send", "multi-packet-ack", "undisturbed-session-ok", "request-after-close", "data-request-while-handler-busy", "client-close-packet-with-poll-pending", "wrong-heartbeat-with-poll-pending", "two-responders-for-one-data-request", "poll-response-on-slow-connection", "poll-arriving-while-a-response-is-being-written", "data-request-with-disallowed-content-type", "disallowed-content-type-with-poll-pending", "two-polls-past-the-overlap-test-together", "two-data-requests-past-the-overlap-test-together")
 }
 
 const sigTruncatedUpload = "aborted-upload-truncated-payload-processed"
